@@ -199,12 +199,45 @@ fn finish_case(isa: &str, kind: &str, src: u64, tramp: u64, fake: u64, v: bool, 
             Some((f, saved, size, jit, js)) => json!({"some":true,"func":a8(*f),"saved":saved,"size":size,"jit":a8(*jit),"jit_size":js}),
             None => json!({"some":false,"func":a8(0),"saved":[],"size":0,"jit":a8(0),"jit_size":0}),
         };
-        emit(json!({"ev":"Sim","isa":isa,"kind":kind,"v": if v {1} else {0},"case":case,
+        // x86-64 forced boolean: a trampoline that forwards to a routine of the library itself (host code of this process)
+        let extra: Vec<Value> = if isa == "x64-sim" && kind == "bool" && tramp != 0 { follow_host(tramp, &img(tramp, 24)) } else { Vec::new() };
+        emit(json!({"ev":"Sim","isa":isa,"kind":kind,"v": if v {1} else {0},"case":case,"extra":extra,
             "src":a8(src),"base":a8(base),"tramp":a8(tramp),"fake":a8(fake),
             "outcome":outcome,"cls":crate::panics::classify(&msg).0,"msg":msg,
             "entry":img(base, 16),"before":before,"trampb": if tramp != 0 { img(tramp, 24) } else { vec![0u8;24] },
             "nwrites":writes.len(),"writes":writes,"reads":reads,"guard":g,"nalloc":s.allocs.len(),"prev_fake":a8(prev_fake),"refake":prev_fake != 0}));
     });
+}
+
+/// first 24 bytes of the host code a simulated trampoline jumps to (`jmp rel32` / `mov rax, imm64; jmp rax` / `jmp [rip+0]`),
+/// if that is readable executable memory of this process
+fn follow_host(at: u64, code: &[u8]) -> Vec<Value> {
+    let dest = if code.len() >= 5 && code[0] == 0xE9 {
+        (at + 5).wrapping_add(i32::from_le_bytes([code[1], code[2], code[3], code[4]]) as i64 as u64)
+    } else if code.len() >= 12 && code[0] == 0x48 && code[1] == 0xB8 && code[10] == 0xFF && code[11] == 0xE0 {
+        u64::from_le_bytes(code[2..10].try_into().unwrap())
+    } else if code.len() >= 14 && code[0] == 0xFF && code[1] == 0x25 && code[2..6] == [0, 0, 0, 0] {
+        u64::from_le_bytes(code[6..14].try_into().unwrap())
+    } else {
+        return Vec::new();
+    };
+    let maps = std::fs::read_to_string("/proc/self/maps").unwrap_or_default();
+    let ok = maps.lines().any(|l| {
+        let mut it = l.split_whitespace();
+        let (range, perms) = (it.next().unwrap_or(""), it.next().unwrap_or(""));
+        match range.split_once('-') {
+            Some((a, b)) => match (u64::from_str_radix(a, 16), u64::from_str_radix(b, 16)) {
+                (Ok(lo), Ok(hi)) => lo <= dest && dest + 24 <= hi && perms.starts_with('r') && perms.as_bytes().get(2) == Some(&b'x'),
+                _ => false,
+            },
+            None => false,
+        }
+    });
+    if !ok {
+        return Vec::new();
+    }
+    let bytes = unsafe { std::slice::from_raw_parts(dest as *const u8, 24) }.to_vec();
+    vec![json!({"base": a8(dest), "bytes": bytes})]
 }
 
 fn u(v: &Value, k: &str) -> u64 {
